@@ -86,16 +86,18 @@ def explain (st : List (Nat × Json × Json)) (k : Key) (sn : Nat) (i1 i2 : Nat)
       | some t =>
         let row := tsRow ob k
         let rowFinal := match row with | some (s, _, _) => isFinalStr s | none => false
-        if jStrField? t "st" == some "waiting" && jNatField? t "sn" == some (sn - 1) then
+        let sn' := (jNatField? t "sn").getD 0
+        if sn' < sn then
           if rowFinal then
             some s!"stale-pool-table: at the restart of op {c} the task_states row of {keyStr k} says {(row.map (·.1)).getD "?"} but the task_pool table still listed it as preparing: it is prepared again"
           else
-            some s!"relaunch-same-submit-number: at the restart of op {c} {keyStr k} comes back waiting with submit number {sn - 1} (the database had not yet seen job {sn} submitted): it is prepared again under the same number"
+            some s!"relaunch-same-submit-number: at the restart of op {c} {keyStr k} comes back {(jStrField? t "st").getD "?"} with submit number {sn'} (the database had not yet seen job {sn} submitted): that number is used again"
         else none
       | none => none
     else none
 
-def judgeLaunches (ops obs : List Json) : List Fail :=
+/-- the failures of the two launch rules, and the instances with a repeated launch that a restart explains -/
+def judgeLaunches (ops obs : List Json) : List Fail × List Key :=
   let st := steps ops obs
   let ls : List (Nat × Int × String × Nat) := st.flatMap fun (i, _, ob) => (launches ob).map fun l => (i, l.1, l.2.1, l.2.2)
   let fin : List (Nat × Key) := st.flatMap fun (i, _, ob) => (finished ob).map fun k => (i, k)
@@ -117,7 +119,11 @@ def judgeLaunches (ops obs : List Json) : List Fail :=
       | some w => some ⟨true, w ++ s!" ({keyStr (p, n)} had finished at op {i1}, launched again at op {i2})"⟩
       | none => some ⟨false, s!"{keyStr (p, n)} had reached a final status at op {i1} and is launched again (job {sn}) at op {i2}"⟩)
     | none => none
-  reruns ++ dups ls
+  let explained : List Key := ls.filterMap fun (i2, p, n, sn) =>
+    match ls.find? fun e => e.2.1 == p && e.2.2.1 == n && e.2.2.2 == sn && e.1 < i2 with
+    | some (i1, _, _, _) => if (explain st (p, n) sn i1 i2).isSome then some (p, n) else none
+    | none => none
+  (reruns ++ dups ls, explained.eraseDups)
 
 /-! ### differential judge -/
 
@@ -172,7 +178,17 @@ def stranded (st : List (Nat × Json × Json)) : List (Key × Nat) :=
         | _, _, _ => none
       | _ => none
 
-def judgeDiff (i : Json) (g : Graph) (ops obs : List Json) : List Fail :=
+/-- the instances whose completed outputs a restart did not reload: the committed `task_outputs` row has more
+outputs than the restored proxy -/
+def unloaded (st : List (Nat × Json × Json)) : List (Key × Nat) :=
+  st.flatMap fun (c, op, ob) =>
+    if !isRestartObs op ob then [] else
+    (poolOf ob).filterMap fun t =>
+      match tsRow ob (keyOf t) with
+      | some (_, _, nouts) => if ((jArrField? t "out").getD []).length < nouts then some (keyOf t, c) else none
+      | none => none
+
+def judgeDiff (i : Json) (g : Graph) (ops obs : List Json) (relaunched : List Key) : List Fail :=
   match jOptField i "base" with
   | none => []
   | some base =>
@@ -187,6 +203,14 @@ def judgeDiff (i : Json) (g : Graph) (ops obs : List Json) : List Fail :=
     let onlyI := li.filter fun k => !lu.contains k
     let str := stranded st
     let down := downstream g (str.map (·.1))
+    let unl := unloaded st
+    let downU := downstream g (unl.map (·.1))
+    let downR := downstream g relaunched
+    -- a task that never ran because it is downstream of a recorded cause, and still sits in the final pool, holds
+    -- back every later cycle point through the runahead limit
+    let blockedBy (d : List Key) : Option Int :=
+      minOf ((lastPool.map keyOf).filter fun k => d.contains k && !li.contains k).map (·.1)
+    let late (d : List Key) (k : Key) : Bool := match blockedBy d with | some p => k.1 ≥ p | none => false
     let d1 : List Fail :=
       (onlyU.map fun k =>
         match str.find? (·.1 == k) with
@@ -194,16 +218,36 @@ def judgeDiff (i : Json) (g : Graph) (ops obs : List Json) : List Fail :=
         | none =>
           if down.contains k then
             ⟨true, s!"stale-pool-table: (consequence) {keyStr k} is launched by the uninterrupted run and never by the killed-and-restarted run: it is downstream of {", ".intercalate (str.map fun e => keyStr e.1)}, lost at a restart"⟩
+          else if downU.contains k then
+            ⟨true, s!"outputs-not-restored: (consequence) {keyStr k} is launched by the uninterrupted run and never by the killed-and-restarted run: it is downstream of {", ".intercalate (unl.map fun e => keyStr e.1)}, whose completed outputs a restart did not reload"⟩
+          else if downR.contains k then
+            ⟨true, s!"relaunch-same-submit-number: (consequence) {keyStr k} is launched by the uninterrupted run and never by the killed-and-restarted run: it is downstream of {", ".intercalate (relaunched.map keyStr)}, whose job was launched twice under one submit number (the reports of the first job were taken for the second's)"⟩
+          else if late down k then
+            ⟨true, s!"stale-pool-table: (consequence) {keyStr k} is launched by the uninterrupted run and never by the killed-and-restarted run: tasks downstream of {", ".intercalate (str.map fun e => keyStr e.1)} (lost at a restart) never run and hold back the runahead limit"⟩
+          else if late downU k then
+            ⟨true, s!"outputs-not-restored: (consequence) {keyStr k} is launched by the uninterrupted run and never by the killed-and-restarted run: tasks downstream of {", ".intercalate (unl.map fun e => keyStr e.1)} never run and hold back the runahead limit"⟩
+          else if late downR k then
+            ⟨true, s!"relaunch-same-submit-number: (consequence) {keyStr k} is launched by the uninterrupted run and never by the killed-and-restarted run: tasks downstream of {", ".intercalate (relaunched.map keyStr)} never run and hold back the runahead limit"⟩
           else ⟨false, s!"the uninterrupted run launches {keyStr k}; the killed-and-restarted run never does"⟩) ++
       (onlyI.map fun k => ⟨false, s!"the killed-and-restarted run launches {keyStr k}; the uninterrupted run never does"⟩)
     let fu := finalOutputs bobs blast
     let fi := finalOutputs obs lastPool
     let d2 : List Fail := fu.filterMap fun e =>
+      if onlyU.contains e.1 then none else       -- never launched in the killed-and-restarted run: reported above
       match fi.find? (·.1 == e.1) with
       | some e' => if e'.2 == e.2 then none else
-          some ⟨false, s!"{keyStr e.1} ends with outputs {e.2.compress} in the uninterrupted run and {e'.2.compress} in the killed-and-restarted run"⟩
+          let txt := s!"{keyStr e.1} ends with outputs {e.2.compress} in the uninterrupted run and {e'.2.compress} in the killed-and-restarted run"
+          let subset := ((jArr? e'.2).getD []).all fun x => ((jArr? e.2).getD []).contains x
+          match unl.find? (·.1 == e.1) with
+          | some (_, c) =>
+            if subset then some ⟨true, s!"outputs-not-restored: {txt}: the restart of op {c} did not reload the outputs recorded in its task_outputs row"⟩
+            else some ⟨false, txt⟩
+          | none =>
+            if subset && relaunched.contains e.1 then
+              some ⟨true, s!"relaunch-same-submit-number: (consequence) {txt}: its job was launched twice under one submit number and the reports of the first job were taken for the second's"⟩
+            else some ⟨false, txt⟩
       | none =>
-        if onlyU.contains e.1 || down.contains e.1 then none    -- reported above / never spawned downstream of a lost task
+        if onlyU.contains e.1 || down.contains e.1 || downU.contains e.1 || downR.contains e.1 then none    -- reported above / never spawned downstream of a lost task
         else some ⟨false, s!"{keyStr e.1} ends with outputs {e.2.compress} in the uninterrupted run and never exists in the killed-and-restarted run"⟩
     let d3 : List Fail := fi.filterMap fun e =>
       if (fu.find? (·.1 == e.1)).isSome then none else
@@ -215,7 +259,8 @@ def handle (i o : Json) : Except String Reply := do
   let c ← parseCase i
   let ops := (jArrField? i "ops").getD []
   let obs := obsList o
-  let fails := judgeLaunches ops obs ++ judgeDiff i c.graph ops obs
+  let jl := judgeLaunches ops obs
+  let fails := jl.1 ++ judgeDiff i c.graph ops obs jl.2
   match fails.find? (!·.known) with
   | some f => return { model := modelObs c, holds := false, why := f.msg }
   | none =>
